@@ -573,3 +573,24 @@ def lower_idioms(cur_trees):
     for t in cur_trees.values():
         _Lower().visit(t)
         ast.fix_missing_locations(t)
+
+
+def reference_identifiers(pkg="shexer"):
+    """Every identifier the reference tree uses (definitions, attributes, names, imports); None without a reference."""
+    ref_trees = _load_reference(pkg)
+    if ref_trees is None:
+        return None
+    out = set()
+    for t in ref_trees.values():
+        for n in ast.walk(t):
+            if isinstance(n, (ast.FunctionDef, ast.AsyncFunctionDef, ast.ClassDef)):
+                out.add(n.name)
+            elif isinstance(n, ast.Attribute):
+                out.add(n.attr)
+            elif isinstance(n, ast.Name):
+                out.add(n.id)
+            elif isinstance(n, ast.alias):
+                out.add(n.asname or n.name)
+            elif isinstance(n, ast.arg):
+                out.add(n.arg)
+    return out
